@@ -672,3 +672,13 @@ func parseSpecExpr(src string) (ast.Expr, error) {
 	}
 	return e, nil
 }
+
+// mentionsGhost: the spec text refers to one of the contract's ghost variables
+func (ct *Contract) mentionsGhost(src string) bool {
+	for _, g := range ct.Ghosts {
+		if regexp.MustCompile(`\b` + regexp.QuoteMeta(g.Name) + `\b`).MatchString(src) {
+			return true
+		}
+	}
+	return false
+}
